@@ -298,7 +298,10 @@ fn run_plan(plan: &C02Plan, want_trace: bool) -> RunOut {
             wc[off + len - 1] = 0x01;
             let (b, c) = (render(wb), render(wc));
             if let (Some(a), Some(b), Some(c)) = (&a, &b, &c) {
-                if a != c {
+                // the renderings are `Debug` text, which a type may shape as it likes (mask a card id, cut a
+                // text): only where A and C differ in a bare, unquoted integer is the field known to be a
+                // number whose rendering shows its value
+                if a != c && differs_in_a_bare_integer(a, c) {
                     out.stats.hit("probe.field_value_consumed");
                     if a == b {
                         out.fail(
@@ -672,6 +675,30 @@ fn plan(dec: Dec, wire: Vec<u8>, fault: &str) -> C02Plan {
         fault: fault.to_string(),
         field: None,
     }
+}
+
+/// Do two renderings differ in exactly one token that is an unquoted run of decimal digits in both?
+fn differs_in_a_bare_integer(a: &str, c: &str) -> bool {
+    let (ab, cb) = (a.as_bytes(), c.as_bytes());
+    let pre = ab.iter().zip(cb.iter()).take_while(|(x, y)| x == y).count();
+    let suf = ab[pre..].iter().rev().zip(cb[pre..].iter().rev()).take_while(|(x, y)| x == y).count();
+    let word = |b: u8| b.is_ascii_alphanumeric() || b == b'_' || b == b'*' || b == b'.';
+    let token = |s: &[u8], from: usize, to: usize| -> (usize, usize) {
+        let mut l = from.min(s.len());
+        while l > 0 && word(s[l - 1]) {
+            l -= 1;
+        }
+        let mut r = to.min(s.len());
+        while r < s.len() && word(s[r]) {
+            r += 1;
+        }
+        (l, r)
+    };
+    let (al, ar) = token(ab, pre, ab.len() - suf);
+    let (cl, cr) = token(cb, pre, cb.len() - suf);
+    let digits = |s: &[u8]| !s.is_empty() && s.iter().all(|b| b.is_ascii_digit());
+    let unquoted = |s: &[u8], at: usize| s[..at].iter().filter(|b| **b == b'"').count() % 2 == 0;
+    al <= ar && cl <= cr && digits(&ab[al..ar]) && digits(&cb[cl..cr]) && unquoted(ab, al) && unquoted(cb, cl)
 }
 
 /// Every primitive TLV leaf of `frame` (as the reference codec sees it) widened to `len` zero
